@@ -76,6 +76,7 @@ def cases(draw, tier="quick"):
     P["get_after_closed"] = True
     P["hs_fail"] = draw(st.sampled_from([[0, 0], [0, 0], [1, 0], [0, 1], [2, 1]]))
     P["hs_slow"] = draw(st.sampled_from([[False, False], [False, False], [True, False], [True, True]]))
+    P["hs_fail_first"] = draw(st.sampled_from([[False, False], [False, False], [False, False], [True, False], [False, True]]))
     for c_ in closes:
         if c_[1] == "halfopen":
             P["hs_slow"] = list(P["hs_slow"])
@@ -135,7 +136,8 @@ def check_verdict(rec, P, i, res):
         until = INF
     trig = triggers_for(rec, P, i, until)
     same = _same_code(P) and P["appids"][0] == P["appids"][1] if "appids" in P else _same_code(P)
-    if P.get("refuse", [0, 0])[i]:
+    if P.get("refuse", [0, 0])[i] or (P.get("hs_fail_first", [0, 0])[i] and rec.world.services[i].hs_failed and
+                                      rec.world.services[i].nconn == 0):
         # initial connection failure: not one of the C08 verdict clauses; measured only
         res.notes["verdict_after_refused_connection:" + vname] += 1
         return vname
